@@ -25,7 +25,7 @@ WHAT = {
     "c09-reported": "an answer of the client acknowledged a payload (error 0) but a send riding on it was not fired `ok` with that response in the same step; or the answer ended the batch (attempts used up / not a Kafka error) and a send on a failed payload was not failed with that error",
     "c01-acks0": "with req_acks=0 a send failed with NoResponseError although the request was handed over",
     "c01-payloads": "a produce payload is not made of whole, distinct sends of its topic, or its messages (key, size, order) are not exactly those sends' messages",
-    "c01-resolved": "a batch resolved while one of its sends had not fired",
+    "c01-resolved": "a batch resolved while one of its sends had not fired (sends of a batch for which the client did not account for every payload are exempt - that batch only)",
     "c09-order": "per-partition submission order violated in a produce request",
     "c09-onebatch": "a first-attempt produce request was made while the previous produce request was unanswered, or while an earlier batch was unresolved (or a retry carried foreign sends)",
     "c09-retry": "a retry did not send exactly the payloads reported failed (or re-sent an acknowledged payload)",
@@ -48,9 +48,9 @@ TRUSTED = [
     "snapshots of the real Producer's private bookkeeping fields (_batch_reqs, _waitingMsgCount, ...) read after every event",
 ]
 ASSUMPTIONS = {
-    "C01": ["the client names only payloads of the request in its result, each at most once (C07); 'fires when the batch resolves' additionally assumes the client accounts for every payload (C07 accounting)",
+    "C01": ["the client names only payloads of the request in its result, each at most once (C07); 'fires when the batch resolves' additionally assumes the client accounts for every payload (C07 accounting): the sends of a batch for which it did not are exempt, per batch",
             "re-entrant calls into the Producer from callbacks of send Deferreds are modelled (Afkak/ProducerR.lean) and compared with the code, but the flat trace theorems are claimed for traces without such callbacks only"],
-    "C09": ["as C01; send ids stand for submission order", "one-batch-in-flight is checked through 'every send of earlier requests has fired', which assumes C07 accounting"],
+    "C09": ["as C01; send ids stand for submission order", "one-batch-in-flight is checked directly (no first-attempt request while a request is unanswered) and through 'every send of earlier requests has fired', the latter exempting the sends of a batch for which the client did not account (C07)"],
     "C19": ["as C01; time bounds are in model time (reactor latency not modelled)",
             "the client's answer to a cancel during stop() is one of ClientIface's cancel outcomes"],
 }
